@@ -2,6 +2,7 @@
 import glob
 import itertools
 import os
+import re
 import shutil
 import subprocess
 import sys
@@ -157,6 +158,9 @@ def idgen(style):
 def text(rng, segs, links, stale, shuffle=True):
     L = []
     for i, sn, so, sr, seq, extra in segs:
+        if extra == ["__UNTAGGED__"]:
+            L.append("\t".join(["S", i, seq]))      # an S line without any tag (valid GFA; only for alleles inside bubbles)
+            continue
         t = ["LN:i:%d" % len(seq), "SN:Z:%s" % sn, "SO:i:%d" % so, "SR:i:%d" % sr] + extra
         if stale and rng.random() < 0.5:
             t.insert(rng.randint(0, len(t)), "BO:i:%d" % rng.randint(0, 50))
@@ -273,6 +277,12 @@ def make_case(rng):
         allsegs.append([next(ids), "chrM", 0, 0, gen.rseq(rng, rng.randint(1, 9)), []])
         chroms.append("chrM")
         broken["chrM"] = None
+    if rng.random() < 0.25:
+        # alternative alleles inside bubbles written as bare `S id seq` lines: no SN / SO / LN, nothing at all (they are never
+        # scaffold nodes, so the tool needs none of these tags from them; their CSV rows say NA)
+        for sg in allsegs:
+            if re.search(r"_h\d+$", sg[1]) and rng.random() < 0.6:
+                sg[5] = ["__UNTAGGED__"]
     order = chroms[:]
     rng.shuffle(order)
     return allsegs, alllinks, order, broken
@@ -541,7 +551,7 @@ def csv_check(ck, c, sp, res, tok, replay):
     tags = {s["id"]: dict((t[0], t[2]) for t in s["tags"]) for s in tok["segs"]}
     roles = dict(sp["roles"])
     if sorted(r[0] for r in body) != sorted(tags) or any(
-            [r[1], r[2], r[3], r[4], r[5]] != [roles[r[0]], tags[r[0]]["SN"], tags[r[0]]["SO"], tags[r[0]]["BO"], tags[r[0]]["NO"]] for r in body):
+            [r[1], r[2], r[3], r[4], r[5]] != [roles[r[0]], tags[r[0]].get("SN", "NA"), tags[r[0]].get("SO", "NA"), tags[r[0]]["BO"], tags[r[0]]["NO"]] for r in body):
         ck.violation("CSV of %s does not list every node once with its role and BO/NO" % c, dict(replay, csv=res["csv"].get(c)))
         return False
     return True
